@@ -57,6 +57,7 @@ type Case struct {
 	Limiter  int    `json:"limiter"` // 0 none, 1 recording, 2 failing
 	Status   int    `json:"status"`
 	Body     int    `json:"body"` // index into bodyShapes
+	Hdr      int    `json:"hdr,omitempty"` // index into headerSets
 	// Prev, if set (Via 0 only), is a call made first on the SAME Datasource and
 	// http.Client (its own status, body, options and limiter: Prev.Limiter 2 makes
 	// the first call fail in the limiter, an invalid Prev.Opts makes it fail before
@@ -130,7 +131,11 @@ func buildArgs(e *endpoint, c *Case) callArgs {
 }
 
 func (c *Case) String() string {
-	return fmt.Sprintf("%s status=%d body=%s", c.argString(), c.Status, bodyShapes[c.Body].Name)
+	s := fmt.Sprintf("%s status=%d body=%s", c.argString(), c.Status, bodyShapes[c.Body].Name)
+	if c.Hdr != 0 {
+		s += fmt.Sprintf(" response-headers=%d", c.Hdr)
+	}
+	return s
 }
 
 // ---- fake transport and limiters ----
@@ -147,6 +152,17 @@ type exchange struct {
 	reqs   []request
 	status int
 	body   string
+	hdr    int
+}
+
+// Response header sets (Case.Hdr): what a server may send next to the status. None of them
+// changes what the status and the body mean.
+var headerSets = []http.Header{
+	{"Content-Type": {"application/xml; charset=utf-8"}},
+	// the OSM API explains a failure in an Error header (and rails sends it along with any status)
+	{"Content-Type": {"text/plain; charset=utf-8"}, "Error": {"The object with the given id has been deleted or could not be found"}},
+	{"Content-Type": {"application/xml"}, "Retry-After": {"120"}, "Cache-Control": {"no-cache"}, "X-Error-Format": {"xml"}, "Content-Encoding": {"identity"}, "Warning": {"199 - deprecated"}},
+	{}, // no headers at all
 }
 
 // Transport faults, encoded as negative Case.Status values: the exchange fails
@@ -205,7 +221,7 @@ func (x *exchange) RoundTrip(req *http.Request) (*http.Response, error) {
 		Proto:         "HTTP/1.1",
 		ProtoMajor:    1,
 		ProtoMinor:    1,
-		Header:        http.Header{"Content-Type": []string{"application/xml; charset=utf-8"}},
+		Header:        headerSets[x.hdr].Clone(),
 		Body:          io.NopCloser(strings.NewReader(x.body)),
 		ContentLength: int64(len(x.body)),
 		Request:       req,
@@ -322,7 +338,7 @@ func checkCase(r *kit.Run, c *Case) {
 	r.Case(fp, nontrivial)
 
 	es := bodyElems(e, c.Body)
-	x := &exchange{status: c.Status, body: bodyXML(e, es)}
+	x := &exchange{status: c.Status, body: bodyXML(e, es), hdr: c.Hdr}
 	client := &http.Client{Transport: x}
 	var lim osmapi.RateLimiter
 	switch c.Limiter {
@@ -945,6 +961,24 @@ func main() {
 			}
 		}
 		r.Set("cases_transport_faults", nfault)
+
+		// response headers next to the status: they change nothing
+		nhdr := 0
+		for i := range endpoints {
+			e := &endpoints[i]
+			for hdr := 1; hdr < len(headerSets); hdr++ {
+				for _, st := range []int{200, 403, 404, 410, 414, 500, 509} {
+					for body := 1; body <= 2; body++ {
+						c := repCase(e, hdr == 2)
+						c.Call, c.Status, c.Body, c.Hdr = e.Call, st, body, hdr
+						checkCase(r, &c)
+						nhdr++
+						perFamily[e.Family]++
+					}
+				}
+			}
+		}
+		r.Set("cases_response_headers", nhdr)
 
 		// sequence pass: every ordered pair of calls on one Datasource and one
 		// http.Client; the second call is judged exactly like a first call
